@@ -51,6 +51,8 @@ def ticks_of(events: list[tuple]):
                     cur["evs"].append("save")
             depth += 1
         elif kind in ("try_pause_call", "resume_call"):
+            if depth == 0 and not (cur["evs"] and cur["evs"][-1] in ("x:pause", "x:resume")):
+                cur["evs"].append("unsolicited:" + kind[:-5])      # a pause / resume no command asked for
             depth += 1
         elif kind in ("save_state_ret", "try_pause_ret", "resume_ret", "save_state_raise", "try_pause_raise",
                       "resume_raise"):
